@@ -2,6 +2,7 @@
 # tools/seed_apply_check.sh <patch.diff> <check-id>...   applies a seeded change to /repo, runs the quick checks, undoes it.
 P=$1; shift
 cd /verif
+rm -rf /verif/build/evidence.bak; cp -r /verif/evidence /verif/build/evidence.bak
 git -C /repo apply "$P" || { echo "PATCH DOES NOT APPLY"; exit 3; }
 for id in "$@"; do
   echo "=== $id"
@@ -9,4 +10,5 @@ for id in "$@"; do
   echo "rc=${PIPESTATUS[0]}"
 done
 git -C /repo checkout -- .
+cp /verif/build/evidence.bak/*.json /verif/evidence/ 2>/dev/null
 git -C /repo status --short | grep -v _build
